@@ -525,6 +525,20 @@ func suiteSearch(h *H) {
 		target := editBytes(h, basis)
 		honest := basis
 		tag := "random"
+		if h.rng.Intn(4) == 0 && bl >= 3 && len(basis) >= 3*bl {
+			// false alarm: a block of the target has the weak sum of the basis block at the same place but
+			// different bytes (+1,-2,+1 keeps s1 and s2); everything after it must still be found
+			target = append([]byte{}, basis...)
+			j := h.rng.Intn(len(basis)/bl - 1)
+			o := j*bl + h.rng.Intn(bl-2)
+			target[o] += 1
+			target[o+1] -= 2
+			target[o+2] += 1
+			if h.rng.Intn(2) == 0 {
+				target = append(h.bytes(1+h.rng.Intn(5)), target...) // and everything at unaligned offsets
+			}
+			tag = "false-alarm"
+		}
 		if h.rng.Intn(8) == 0 && len(sums) > 1 {
 			// a remainder block declared although the file is a multiple (remainder reused mid-file is legal for the sender)
 			sh.rem = int32(1 + h.rng.Intn(bl))
@@ -543,6 +557,15 @@ func suiteSearch(h *H) {
 		target := editBytes(h, basis)
 		if i%3 == 0 {
 			target = basis
+		}
+		if i%3 == 1 {
+			// a long unmatched run (longer than the read window) in the middle or at the very end, unaligned
+			cut := h.rng.Intn(len(basis)/2 + 1)
+			run := h.pick(257*1024+h.rng.Intn(1024), 263*1024+777, 300*1024+1, 600*1024+13)
+			target = append(append([]byte{}, basis[:cut]...), h.bytes(run)...)
+			if h.rng.Intn(2) == 0 {
+				target = append(target, basis[cut:]...)
+			}
 		}
 		res := runSender(seed, sh, sums, target)
 		v := searchOracle(seed, sh, sums, target, res, basis)
@@ -808,7 +831,11 @@ func suiteRecvData(h *H) {
 		target := editBytes(h, basis)
 		res := runSender(seed, sh, sums, target)
 		if res.outcome == "ok" {
-			s := append(append(encHead(res.head), encTokens(res.toks)...), res.trailer...)
+			// the header a sender echoes may carry any strong-checksum length (gokrazy's own generator asks
+			// for whole files with an all-zero header): it must not weaken the whole-file check
+			hd := res.head
+			hd.cs = int32(h.pick(16, 16, 0, 2, 8))
+			s := append(append(encHead(hd), encTokens(res.toks)...), res.trailer...)
 			if target == nil {
 				target = []byte{}
 			}
@@ -845,13 +872,13 @@ func suiteRecvData(h *H) {
 				tk := append([]tok{}, res.toks...)
 				a, b := h.rng.Intn(len(tk)), h.rng.Intn(len(tk))
 				tk[a], tk[b] = tk[b], tk[a]
-				run(seed, basis, append(append(encHead(res.head), encTokens(tk)...), res.trailer...), target, "reordered")
+				run(seed, basis, append(append(encHead(hd), encTokens(tk)...), res.trailer...), target, "reordered")
 			}
 			for j, t := range res.toks {
 				if t.lit == nil && len(sums) > 1 {
 					tk := append([]tok{}, res.toks...)
 					tk[j] = tok{ref: (t.ref + 1 + h.rng.Intn(len(sums)-1)) % len(sums)}
-					run(seed, basis, append(append(encHead(res.head), encTokens(tk)...), res.trailer...), target, "ref-substituted")
+					run(seed, basis, append(append(encHead(hd), encTokens(tk)...), res.trailer...), target, "ref-substituted")
 					break
 				}
 			}
